@@ -209,9 +209,40 @@ if not jeq(J(p2), j2): return "fill-of-template-changed-second-parent"
     )
 
 
+EMPTY_OPS = ["a + z", "z + a", "D.combine(a, z)", "D.combine(z, a)", "D.combine(a, b)", "a + a.zero()", "a * 1.0", "z * 2.0", "D.combine(z, z2)"]
+
+
+def empty_operand(tree, timeout=60, fixy=False):
+    """one operand is empty (fresh, or zero()): a shortcut "x + empty is x" would hand back the operand itself"""
+    pa, prea, codea = data_params(tree, 1, mode="real", prefix="a", fix_leaf_y=fixy)
+    pe, pree, codee = data_params(tree, 1, mode="real", prefix="e", fix_leaf_y=fixy)
+    body = codea + codee + f"""
+a, b, z, z2 = fresh(MK, 4)
+a.fill(adata[0]); b.fill(adata[0])
+ja, jb, jz = J(a), J(b), J(z)
+OPS = [{", ".join("lambda: " + o for o in EMPTY_OPS)}]
+r = OPS[sel(op, {", ".join(str(i) for i in range(len(EMPTY_OPS)))})]()
+if r is a or r is b or r is z or r is z2: return "result-is-one-of-the-operands"
+r.fill(edata[0])
+if not jeq(J(a), ja): return "fill-of-result-changed-filled-operand"
+if not jeq(J(z), jz) or not jeq(J(z2), jz): return "fill-of-result-changed-empty-operand"
+if not jeq(J(b), jb): return "fill-of-result-changed-other-operand"
+jr = J(r)
+a.fill(edata[0]); z.fill(edata[0]); z2.fill(edata[0]); b.fill(edata[0])
+if not jeq(J(r), jr): return "fill-of-operand-changed-result"
+r += a
+if not jeq(J(z), J(z2)): return "merge-into-result-changed-an-operand"
+"""
+    return Harness(f"C06/empty-operand/{{}}".format(tree.name) + ("-fixy" if fixy else ""), pa + pe + [("op", "int")], " and ".join(prea + pree + [f"0 <= op <= {len(EMPTY_OPS) - 1}"]), body,
+                   timeout=timeout, setup=_setup(tree), tree=tree.expr,
+                   bounds=bounds_text(tree, 2, ops="; ".join(EMPTY_OPS) + " (by selector; z, z2 fresh empty trees)", continuation="fill result; fill operands; result += a"))
+
+
 def harnesses(tier):
     out = []
     units = cat.unit()
+    for t in units + cat.extra_unit():
+        out.append(empty_operand(t))
     for t in units:
         out.append(pure(t))
         out.append(hashrepr(t))
